@@ -23,7 +23,7 @@ STATIC = ["no animation step", "style whitelist", "safe area", "merged regions p
           "filter succeeds", "model on the implementation's result is the identity"]
 FINDINGS = ["lcd-position", "lcd-bg-no-body", "lcd-position-survives", "lcd-region-end-zero",
             "lcd-nested-region-conflict", "lcd-preserve-text-align-merge"]
-TRIGS = ["position", "nobody", "position_content", "end_zero", "nested", "no_hiding", "tie"]
+TRIGS = ["position", "nobody", "position_content", "end_zero", "nested", "no_hiding", "wf", "tie"]
 
 
 def load_proposed(run):
@@ -202,7 +202,7 @@ def one_case(args):
                  f"case_static c{n} d{k} o{n}", f"case_strict c{n} d{k} o{n}",
                  f"case_timeline c{n} d{k} o{n} t{k}", f"case_timeline_strict d{k} o{n} t{k}", f"case_computed c{n} o{n} t{k}",
                  f"[trig_position d{k}; trig_nobody c{n} d{k}; trig_position_content d{k}; trig_end_zero d{k}; trig_nested c{n} d{k}; "
-                 f"no_hiding_b d{k}; lcd_outcome_close (lcd c{n} d{k}) o{n}]"]
+                 f"no_hiding_b d{k}; wf_doc_b d{k}; lcd_outcome_close (lcd c{n} d{k}) o{n}]"]
         counts = [1, 1, len(STATIC), 3, len(ts), len(ts), len(ts), len(TRIGS)]
         out.append(((k, j), defs, slots, counts, obs))
     return dict(k=k, cases=out, times=[str(t) for t in ts], src=src)
@@ -279,8 +279,8 @@ def main():
     if stale: run.cov["stale_findings"] = [f"{f}: witness no longer fails" for f in stale]
 
     ndocs = 300 if run.tier == "quick" else 4000
-    ncfg = 2
-    ntimes = 10 if run.tier == "quick" else 14
+    ncfg = 3
+    ntimes = 12 if run.tier == "quick" else 14
     jobs = [(k, run.rng.getrandbits(62), ncfg, ntimes) for k in range(ndocs)]
     with ProcessPoolExecutor(C.NCPU) as ex:
         results = list(ex.map(one_case, jobs, chunksize=4))
@@ -321,6 +321,9 @@ def main():
     T = lambda cid, name: trig[cid][TRIGS.index(name)]
     tie_excused = [cid for cid in info if not T(cid, "tie") and cid not in m_bad]
 
+    outside = [cid for cid in info if not T(cid, "wf")]
+    frc, fout = C.coqc(C.COQ + "/Findings/C16.v", 900)
+    if frc != 0: run.cov.setdefault("stale_findings", []).append("coq/Findings/C16.v no longer compiles: " + fout[-300:])
     ncases = len(info)
     n_ok = sum(1 for o, _ in info.values() if o["exc"] is None)
     excs = Counter(o["exc"] for o, _ in info.values() if o["exc"])
@@ -418,8 +421,8 @@ def main():
                    rule="random well-formed documents (docgen.Gen: 0-4 regions, body/div/p/span/br/text/ruby, region references at any level incl. "
                         "conflicting nested ones, every style property; regions re-dressed with origin/position/extent in pct/px/c/rh/rw, "
                         "writing modes, displayAlign, textAlign, timings from a small pool so that fingerprints collide, 2-5 animation steps on 12 % of "
-                        "the elements; two thirds without display/visibility/opacity) x 2 configurations (safe_area in {0,5,10,30}, preserve_text_align, "
-                        "color, bg_color; the defaults half of the time for the second). Each case: model vs filtered document, S clauses on the "
+                        "the elements; two thirds without display/visibility/opacity) x 3 configurations (safe_area in {0,5,10,30}, preserve_text_align, "
+                        "color, bg_color; the defaults half of the time for the last). Each case: model vs filtered document, S clauses on the "
                         "implementation's result, timeline and computed styles at boundary/epsilon/midpoint times, second application. "
                         "distinct_nontrivial = distinct (document, configuration) pairs on which the filter succeeded.",
                    samples=[dict(document=k0["src"][:1500], configuration=k0["cases"][0][4]["cfg"], times=k0["times"][:8])],
@@ -430,6 +433,7 @@ def main():
                    animation_steps_per_document=dict(max=max(o["n_anim"] for o, _ in info.values()), documents_with_two_or_more=sum(1 for o, _ in info.values() if o["j"] == 0 and o["n_anim"] >= 2)),
                    documents_without_hiding=sum(1 for cid in info if cid[1] == 0 and T(cid, "no_hiding")),
                    query_times=sum(len(r["times"]) for r in results) * ncfg,
+                   cases_outside_theorem_domain=len(outside), findings_file_compiles=(frc == 0),
                    model_code_mismatches=len(m_bad), float_tie_cases_excused=len(tie_excused), key_order_mismatches=len(order_bad),
                    s_static_failures=len(static_bad), timeline_failures=len(tl_bad), findings_fired=dict(fired))
     run.assumptions += ["documents are well formed (C15): region identity is modelled by xml:id, style dictionaries have unique keys",
